@@ -1,25 +1,31 @@
 (* C14 - Notifications obey threshold / interval / send-once; every incident is announced.
    Statements only; proofs are in NotifierProofs.v.  Model: Notifier.v (notifyModule gating of
-   core/internal/notifier/coordinator.go after the `fix:` commit for finding F3, tied to the source by the probe of
-   checks/c14.py on every run).  Vocabulary as in props/C13.v; [open_call mods h j n] - result j makes a
-   stateGood = false notification to the module named n.  send-interval and send-once are counted within an incident. *)
+   core/internal/notifier/coordinator.go after the `fix:` commit for finding F3, with the group-list / cluster-list
+   refresh, tied to the source by the probe of checks/c14.py on every run).  Vocabulary as in props/C13.v: histories mix
+   evaluator responses with refreshes; [member h k i j] includes [listed_throughout h k i j] (the group stays on the
+   notifier's list from the opening result i to the result j, whatever refreshes fall in between);
+   [open_call mods h j n] - event j makes a stateGood = false notification to the module named n.
+   send-interval and send-once are counted within an incident. *)
 From Coq Require Import ZArith List Bool.
 From Burrow Require Import Int64 Notifier NotifierProofs.
 Import ListNotations.
 Open Scope Z_scope.
 
-(* Only for a status at or above the module's threshold, and a group its lists (and AcceptConsumerGroup) accept. *)
+(* Only for a status at or above the module's threshold, and a group (on the list) its lists and AcceptConsumerGroup
+   accept. *)
 Theorem C14_threshold_respected :
   forall mods h j c,
     names_distinct mods -> In c (calls_at mods h j) -> nc_good c = false ->
-    exists now r m, nth_error h j = Some (now, r) /\ In m mods /\ nm_name m = nc_module c /\
-      nc_status c = nr_status r /\ nr_status r <> 0 /\ (nc_cluster c, nc_group c) = resp_key r /\
+    exists now r m, nth_error h j = Some (HResponse now r) /\ In m mods /\ nm_name m = nc_module c /\
+      nc_status c = nr_status r /\ nr_status r <> 0 /\ recorded h (resp_key r) j = true /\
+      (nc_cluster c, nc_group c) = resp_key r /\
       nm_threshold m <= nr_status r /\
       lists_accept (nm_lists m (nr_group r)) = true /\ nm_accept_group m = true.
 Proof. exact threshold_respected. Qed.
 Print Assumptions C14_threshold_respected.
 
-(* At most once per send interval (within an incident; the interval in nanoseconds fits time.Duration). *)
+(* At most once per send interval (within an incident; the interval in nanoseconds fits time.Duration) - the remembered
+   notify time survives every refresh that still lists the group. *)
 Theorem C14_interval_respected :
   forall mods h k i j1 j2 m,
     names_distinct mods -> opens h k i -> member h k i j1 -> member h k i j2 -> (j1 < j2)%nat -> In m mods ->
@@ -40,7 +46,8 @@ Proof. exact send_once_respected. Qed.
 Print Assumptions C14_send_once_respected.
 
 (* Every incident whose status reaches a module's threshold is announced to it - the second and later incidents of a
-   group included, for every combination of threshold, send-interval, send-once and send-close. *)
+   group included, for every combination of threshold, send-interval, send-once and send-close, and whatever refreshes
+   happen before or during the incident. *)
 Theorem C14_every_incident_announced :
   forall mods h k i j m s,
     names_distinct mods -> opens h k i -> member h k i j -> In m mods ->
@@ -49,6 +56,22 @@ Theorem C14_every_incident_announced :
     exists p, member h k i p /\ (p <= j)%nat /\ open_call mods h p (nm_name m).
 Proof. exact every_incident_announced. Qed.
 Print Assumptions C14_every_incident_announced.
+
+(* The refresh itself notifies nobody and keeps what the gating remembers: the record of a group that is on the list
+   before and after a refresh - LastNotify of every module included - is unchanged. *)
+Theorem C14_refresh_keeps_listed_record :
+  forall mods h j e k,
+    nth_error h j = Some e -> is_resp e = false -> recorded h k j = true -> recorded h k (S j) = true ->
+    calls_at mods h j = [] /\ c_groups (state_at mods h (S j)) k = c_groups (state_at mods h j) k.
+Proof. exact refresh_keeps_listed_record_silent. Qed.
+Print Assumptions C14_refresh_keeps_listed_record.
+
+(* A group that is listed again after having left the list starts with a blank record: its next incident is announced
+   like a first one (C14_every_incident_announced applies: the new opening result is an [opens]). *)
+Theorem C14_unrecorded_blank :
+  forall mods h k j, recorded h k j = false -> c_groups (state_at mods h j) k = g_init.
+Proof. exact unrecorded_blank. Qed.
+Print Assumptions C14_unrecorded_blank.
 
 (* Documentation of finding F3: the same statement was false for the tree before the fix ([run_gen false]). *)
 Theorem C14_announce_refuted_before_fix :
@@ -59,3 +82,26 @@ Theorem C14_announce_refuted_before_fix :
     (exists c, In c (nth i (fst (run mods c_init h)) []) /\ nc_module c = nm_name m /\ nc_good c = false).
 Proof. exact announce_refuted_before_fix. Qed.
 Print Assumptions C14_announce_refuted_before_fix.
+
+(* ---- non-vacuity (NotifierProofs.ex_hist: refreshes 4 and 6 fall inside incident A of group 1) ---- *)
+
+(* results 2 and 5 of incident A are 61 s apart with the refresh 4 between them: module 1 (send-interval 60) is notified
+   by both, module 2 (send-once) only by the first *)
+Example C14_ex_gating :
+  member ex_hist ex_k1 2 5 /\ interval_fits (nth 0 ex_mods f3_mod) /\ nm_once (nth 1 ex_mods f3_mod) = true /\
+  open_call ex_mods ex_hist 2 1 /\ open_call ex_mods ex_hist 5 1 /\
+  open_call ex_mods ex_hist 2 2 /\ ~ open_call ex_mods ex_hist 5 2 /\
+  clock_at ex_hist 5 - clock_at ex_hist 2 = 61000000000.
+Proof. exact ex_gating. Qed.
+
+(* the second incident B of group 1 is announced to module 2 (send-once, no send-close, notified during A) *)
+Example C14_ex_announced :
+  opens ex_hist ex_k1 8 /\ member ex_hist ex_k1 8 9 /\ status_of ex_hist ex_k1 9 = Some 3 /\
+  open_call ex_mods ex_hist 9 2 /\ open_call ex_mods ex_hist 8 1.
+Proof. exact ex_announced. Qed.
+
+(* the incident of group 2 opened after it was dropped and listed again is announced *)
+Example C14_ex_relisted_announced :
+  recorded ex_hist ex_k2 7 = false /\ opens ex_hist ex_k2 13 /\
+  calls_at ex_mods ex_hist 13 = [mkNcall 1 1 2 3 (Some 4) (Some 68000000000) false].
+Proof. exact ex_relisted_announced. Qed.
